@@ -243,7 +243,7 @@ func (ms *ModbusServer) Start() (err error) {
 		}
 
 		// accept client connections in a goroutine
-		go ms.acceptTCPClients()
+		go ms.acceptTCPClients(ms.tcpListener)
 
 	default:
 		err = ErrConfigurationError
@@ -282,13 +282,13 @@ func (ms *ModbusServer) Stop() (err error) {
 // Accepts new client connections if the configured connection limit allows it.
 // Each connection is served from a dedicated goroutine to allow for concurrent
 // connections.
-func (ms *ModbusServer) acceptTCPClients() {
+func (ms *ModbusServer) acceptTCPClients(listener net.Listener) {
 	var sock     net.Conn
 	var err      error
 	var accepted bool
 
 	for {
-		sock, err = ms.tcpListener.Accept()
+		sock, err = listener.Accept()
 		if err != nil {
 			// if the server socket has just been closed, return here as
 			// this goroutine isn't going to see any new client connection
